@@ -134,3 +134,107 @@ def check(run):
             g = [a for a in G.guard_atoms(nb_, bb, prog) if a[0] == "lt" and any(x[0] == "const" and x[2] == total for x in map(K.peel, a[1]))]
             ok = ok and bool(g)
         o.check(ok, "ShredIndex::new|bounded", "ShredIndex::new returns Some only below TOTAL_SHREDS", nb_.span)
+
+    ob_fa1_phase1(run, "O17.5")
+
+
+def ob_fa1_phase1(run, oid):
+    """FA1 phase 1 (the floor(f*k) guaranteed seats): formula shape, unconditional, sibling constructors agree, seats always emitted"""
+    from . import detectors as DET
+    prog = run.program("lib")
+    o = run.ob(oid, "FA1 phase 1: every validator gets floor(stake/total*k) required seats and loses that much weight, unconditionally, identically in "
+                    "both constructors; sample_quorum always emits the required seats",
+               "a validator holding f of the stake is guaranteed floor(f*k) seats only through required_samples: a skipped validator, another formula or a "
+               "constructor deviating from its sibling silently drops the guarantee", floor=16)
+    ctors = sorted(d for d in prog.bodies if d.startswith(SS + "FaitAccompli1Sampler::new_with_") and "{" not in d)
+    if len(ctors) < 2:
+        o.missing("two FaitAccompli1Sampler::new_with_* constructors")
+    shapes = {}
+    for d in ctors:
+        b = prog.bodies[d]
+        key = fshort(d)
+        fn = d.rsplit("::", 1)[-1]
+        ext = [c for c in b.calls() if c.name.endswith("Extend<T>>::extend") or c.name.rsplit("::", 1)[-1] == "extend"]
+        sub = [c for c in b.calls() if c.name.rsplit("::", 1)[-1] == "sub_assign"]
+        if len(ext) != 1 or len(sub) != 1:
+            o.fail(key + "|phase1-sites", "expected exactly one required_samples.extend and one stake -= in the constructor", b.span, {"extend": len(ext), "sub_assign": len(sub)})
+            continue
+        e, s = ext[0], sub[0]
+        et = b.operand_term(e.args[1])
+        rng = [x for x in mir.walk(et) if isinstance(x, tuple) and x and x[0] == "agg" and "Range" in str(x[1])]
+        # the count: end of the 0..samples range
+        cnt = None
+        for x in mir.walk(et):
+            if isinstance(x, tuple) and x and x[0] in ("agg", "struct", "adt") and "Range" in str(x[1]):
+                cnt = x
+                break
+        floors = [x for x in mir.walk(et) if isinstance(x, tuple) and x and x[0] == "call" and x[1].rsplit("::", 1)[-1] == "floor"]
+        ok = False
+        det = {"extend_arg": mir.show(et)[:300]}
+        fl = None
+        if len(floors) >= 1:
+            fl = floors[0]
+            inner = K.peel(fl[2][0])
+            if inner[0] == "bin" and inner[1].startswith("Mul"):
+                sides = [K.peel(inner[2]), K.peel(inner[3])]
+                ks = [x for x in sides if K.mentions_arg(b, x, 2) and not K.mentions_field(x, "stake")]
+                fr = [x for x in sides if x not in ks]
+                if len(ks) == 1 and len(fr) == 1:
+                    f = fr[0]
+                    while f[0] == "cast":
+                        f = K.peel(f[2])
+                    if f[0] == "bin" and f[1].startswith("Div"):
+                        ok = (K.mentions_field(f[2], "stake") and not K.mentions_call(f[2], "sum")
+                              and K.mentions_call(f[3], "sum") and K.mentions_arg(b, f[3], 1))
+        o.check(ok, key + "|seats=floor(stake/total*k)", "required seats per validator = floor(v.stake / total_stake * k)", e.span, det)
+        zero_start = any(isinstance(x, tuple) and x and x[0] == "const" and x[2] == 0 for x in mir.walk(et)) and K.mentions_call(et, "map")
+        o.check(zero_start, key + "|one-id-per-seat", "required_samples.extend((0..seats).map(|_| v.id))", e.span)
+        recv = b.operand_term(e.args[0])
+        # weight removed: Stake::new(seats * total / k) with the same seats term
+        st = b.operand_term(s.args[1])
+        ok2 = False
+        if fl is not None:
+            divs = [x for x in mir.walk(st) if isinstance(x, tuple) and x and x[0] == "bin" and x[1].startswith("Div") and K.is_arg(b, x[3], 2)]
+            for dv in divs:
+                muls = [x for x in mir.walk(dv[2]) if isinstance(x, tuple) and x and x[0] == "bin" and x[1].startswith("Mul") and x[2:] != fl[2][0][2:]]
+                for m in muls:
+                    sides = [m[2], m[3]]
+                    if any(fl in list(mir.walk(x)) for x in sides) and any(K.mentions_call(x, "sum") and fl not in list(mir.walk(x)) for x in sides):
+                        ok2 = True
+        o.check(ok2, key + "|weight-removed=seats*total/k", "v.stake -= Stake::new(seats * total_stake / k) with the same seat count", s.span, {"arg": mir.show(st)[:300]})
+        o.check(K.mentions_field(b.operand_term(s.args[0]), "stake"), key + "|weight-removed-from-stake", "the subtraction targets the validator's stake", s.span)
+        for c, nm in ((e, "extend"), (s, "sub_assign")):
+            extra = DET.extra_guards(prog, b, c.bb, [])
+            o.check(not extra, key + "|%s|unconditional" % nm, "applied to every validator of the set (no condition skips one)", c.span, {"extra": G.atoms_show(extra)})
+        shapes[d] = (mir.show(et).replace(fn, "FN"), mir.show(st).replace(fn, "FN"))
+        # k' = k - required_samples.len() goes to the fallback
+        fb = [c for c in b.calls() if c.name.endswith("PartitionSampler::new") or c.name.endswith("into_quorum_strategy")]
+        okk = bool(fb)
+        for c in fb:
+            kt = b.operand_term(c.args[1])
+            okk = okk and K.mentions_arg(b, kt, 2) and K.mentions_call(kt, "len") and any(
+                isinstance(x, tuple) and x and x[0] == "bin" and x[1].startswith("Sub") for x in mir.walk(kt))
+        o.check(okk, key + "|fallback-size=k-required", "the fallback sampler is built for k - required_samples.len() seats", b.span)
+    if len(shapes) >= 2:
+        vals = list(shapes.values())
+        o.check(all(v == vals[0] for v in vals), "FaitAccompli1Sampler|constructors-agree", "both constructors compute seats and removed weight by the same expression", "",
+                {"constructors": [fshort(x) for x in shapes]})
+    # sample_quorum: the required seats are always part of the committee
+    sqs = [x for d, x in prog.bodies.items() if d.startswith("<" + SS + "FaitAccompli1Sampler<") and d.endswith("QuorumSamplingStrategy>::sample_quorum")]
+    if not sqs:
+        o.missing("FaitAccompli1Sampler::sample_quorum")
+    for b in sqs:
+        ex = [c for c in b.calls() if c.name.rsplit("::", 1)[-1] in ("extend_from_slice", "extend")]
+        req = [c for c in ex if K.mentions_field(b.operand_term(c.args[1]), "required_samples")]
+        o.check(len(req) == 1 and not DET.extra_guards(prog, b, req[0].bb, []) and b.always_followed_by(0, [req[0].bb]), "sample_quorum|required-always",
+                "result starts with all required_samples on every path", b.span)
+        rest = [c for c in ex if c not in req]
+        okr = len(rest) == 1
+        if okr:
+            extra = DET.extra_guards(prog, b, rest[0].bb, [lambda a: a[0] == "lt" and a[2] is True and any(K.mentions_field(x, "k") for x in a[1]),
+                                                                   # assert_eq!(k', fallback.quorum_size()): a reviewed panic site (O17.3), not a filter
+                                                                   lambda a: a[0] == "eq" and a[2] is True and any(K.mentions_call(x, "quorum_size") for x in a[1])])
+            okr = not extra and K.mentions_call(b.operand_term(rest[0].args[1]), "sample_quorum")
+        o.check(okr, "sample_quorum|fallback-fills-rest", "the remaining seats come from the fallback sampler whenever fewer than k are required", b.span)
+    w = K.all_field_writers(prog, SS + "FaitAccompli1Sampler").get("required_samples", {})
+    o.check(not w, "FaitAccompli1Sampler.required_samples|immutable", "required_samples is never written after construction", "", {"writers": [fshort(x) for x in w]})
